@@ -78,11 +78,36 @@ def getoptsReportOps (name : Name) (value : String) (optarg : Option String) (op
     | none => .unset "OPTARG" .global),
    .assign "OPTIND" .global (.scalar optind) none]
 
+/-! ### the `Portable` option in `SetVariables::execute` (session 4 coverage pass) -/
+
+/-- constants.rs `is_portable_variable_name`: not empty, no leading ASCII digit, only ASCII alphanumerics and `_` -/
+def isPortableName (n : Name) : Bool :=
+  match n.toList with
+  | [] => false
+  | c :: _ => !c.isDigit && n.toList.all (fun c => c.isAlphanum || c == '_')
+
+/-- constants.rs `is_portable_readonly_variable_name` refuses these (generated: `nonPortableReadonlyNames`) -/
+def nonPortableReadonly : List Name := ["LINENO", "OLDPWD", "OPTARG", "OPTIND", "PWD"]
+
+/-- the body of the field loop of `SetVariables::execute` with the `portable` flag: a non-portable name
+    is an error before anything is created; for a name that must stay writable the attribute loop is
+    cut (with an error) where it would make the variable read-only — after the assignment and the
+    earlier attributes have been applied.  Without the flag it is `executeField`. -/
+def executeFieldP {σ} (I : Iface σ) (sv : SetVariables) (portable : Bool) (s : σ) (field : String) : σ × Bool :=
+  let n := (splitAssign field).1
+  if portable && !isPortableName n then (s, true)
+  else if portable && nonPortableReadonly.contains n then
+    let pre := sv.attrs.takeWhile (fun a => !(a.1 == VAttr.readOnly && a.2))
+    match executeField I { sv with attrs := pre } s field with
+    | (s', e) => (s', e || decide (pre.length < sv.attrs.length))
+  else executeField I sv s field
+
 /-- the generated tables of cd.rs / cd/assign.rs / getopts/report.rs say what `cdAssign`, `cdStatus` and
     `getoptsReportOps` do: names, order, scope, the status of a refused assignment -/
 def cdGetoptsTablesOk : Bool :=
   Generated.VariableTables.cdWrites == [(cdOldpwdName, scopeName .global), (cdPwdName, scopeName .global)] &&
   cdStatus 1 == Generated.VariableTables.cdAssignErrorStatus && cdStatus 0 == 0 &&
+  Generated.VariableTables.nonPortableReadonlyNames == nonPortableReadonly &&
   Generated.VariableTables.getoptsWrites ==
     ((getoptsReportOps "<name>" "a" (some "v") "2").take 2 ++ (getoptsReportOps "<name>" "a" none "2").drop 1).map
       (fun op => match op with
